@@ -16,6 +16,17 @@ pub fn mac_unicast() -> impl Strategy<Value = [u8; 6]> {
     })
 }
 
+/// source MAC of a client: mostly unicast; sometimes broadcast, a group address, all-zero
+/// (the responder is not documented to look at the source MAC: replies go back to it verbatim)
+pub fn client_mac() -> impl Strategy<Value = [u8; 6]> {
+    prop_oneof![
+        14 => mac_unicast(),
+        1 => Just(BCAST),
+        1 => any::<[u8; 6]>().prop_map(|mut m| { m[0] |= 1; m }),
+        1 => Just([0u8; 6]),
+    ]
+}
+
 pub fn any_mac() -> impl Strategy<Value = [u8; 6]> {
     prop_oneof![
         6 => mac_unicast(),
@@ -113,7 +124,7 @@ pub fn scenario(fam: Fam) -> BoxedStrategy<Scenario> {
         Fam::Any => any::<bool>().boxed(),
     };
     (
-        (mac_unicast(), mac_unicast(), any::<[u64; 2]>(), lists(), v4s),
+        (mac_unicast(), client_mac(), any::<[u64; 2]>(), lists(), v4s),
         (ip4_addr(), ip6_addr(), ip4_addr(), ip6_addr(), any::<u16>(), 0u8..10, logger_kind(), 0u8..=5),
     )
         .prop_map(|((mac, cmac, key, mut l, v4), (c4, c6, s4, s6, pick_s, dmac_kind, logger, level))| {
